@@ -852,6 +852,16 @@ class SwitchInfo:
         if d[0] == "discr":
             self.variants = self._variants_of(t["discr"])
         self.is_bool = self.ty == "bool"
+        # `let dup = !set.insert(x); if dup {..}`: a negation kept in a variable.  The switch is read as a switch on the negated
+        # value with its labels swapped, so that `if !c` and `let n = !c; if n` are the same test.
+        self.negated = False
+        while self.is_bool:
+            d = strip(self.discr)
+            if d[0] == "un" and d[1] == "Not":
+                self.discr = d[2]
+                self.negated = not self.negated
+            else:
+                break
 
     def _variants_of(self, op):
         pl = op.get("copy") or op.get("move")
@@ -863,6 +873,12 @@ class SwitchInfo:
         return None
 
     def label(self, val):
+        if self.is_bool and self.negated:
+            raw = self._label(val)
+            return (not raw) if isinstance(raw, bool) else raw
+        return self._label(val)
+
+    def _label(self, val):
         if val == "otherwise":
             if self.is_bool:
                 vals = [v for v, _ in self.edges if v != "otherwise"]
